@@ -215,6 +215,21 @@ class CaseRunner:
                         "bad-unpack", "bad-amount", "float-call", "math-call", "int-truncation",
                         "missing-attribute"),
             min_paths=1, site=None, **kw) -> List[Outcome]:
+        # a subclass elsewhere in the package that overrides the analysed method is held to the same contract
+        # (Money / Currency / MoneyMeta are reached by dynamic dispatch on the money flavour instead)
+        if fi.cls is not None and not getattr(self, "_in_override", False):
+            for ci in list(self.prog.classes.values()):
+                if ci is fi.cls or ci.name in ("Money", "Currency", "MoneyMeta") or fi.name not in ci.methods:
+                    continue
+                over = ci.methods[fi.name]
+                if over.node is fi.node or not self.prog.is_subclass(ci, fi.cls.name):
+                    continue
+                self._in_override = True
+                try:
+                    self.run(rule, over, f"{case} [as overridden in {ci.name}]", setup, judge, flag_kinds=flag_kinds,
+                             min_paths=min_paths, site=f"{ci.name}.{fi.name}", **kw)
+                finally:
+                    self._in_override = False
         outs = run_case(self.prog, fi, setup, max_depth=self.max_depth, **kw)
         res = self.res
         site = site or fi.qualname
@@ -502,6 +517,64 @@ def other_values():
     ]
 
 
+def offset_signs(st: State, q: RF) -> set:
+    """Signs `q` can have, derived from facts about expressions that differ from +-q by a quantity of known sign:
+    q = s*f + d with d >= 0 and s*f >= 0 gives q >= 0, and so on.  For integer-valued q and f with a constant d the
+    bounds are sharpened (s*f > 0 means s*f >= 1)."""
+    holds = lambda o_, s_: {"==": s_ == 0, "!=": s_ != 0, "<": s_ < 0, "<=": s_ <= 0, ">": s_ > 0, ">=": s_ >= 0}[o_]
+    allowed = {-1, 0, 1}
+    qc = st.canon_diff(q)
+    q_int = st.integer_valued(qc)
+    seen = {}
+    for f, op, res in getattr(st, "cmp_raw", []):
+        fc = st.canon_diff(f)
+        key = fc.key()
+        sf = seen.setdefault(key, [fc, {-1, 0, 1}])
+        sf[1] = {s_ for s_ in sf[1] if holds(op, s_) == res}
+    for fc, fsigns in seen.values():
+        if fsigns == {-1, 0, 1}:
+            continue
+        for s in (1, -1):
+            d = st.norm(qc - (fc if s == 1 else RF.const(0) - fc))
+            if d.is_zero():
+                continue        # the exact-match case is handled by the caller
+            dsign = None
+            if d.is_const():
+                dv = d.const_value()
+                dsign = (dv > 0) - (dv < 0)
+            else:
+                dsign = _sign_of_rf(st, d)
+            if dsign is None:
+                continue
+            sfs = {s * x for x in fsigns}            # signs of s*f
+            if q_int and st.integer_valued(fc) and d.is_const() and d.const_value().denominator == 1:
+                dv = int(d.const_value())
+                lo = 1 if sfs == {1} else (0 if sfs <= {0, 1} else None)
+                hi = -1 if sfs == {-1} else (0 if sfs <= {-1, 0} else None)
+                if sfs == {0}:
+                    lo = hi = 0
+                poss = set()
+                for sg in (-1, 0, 1):
+                    # is there an integer x in [lo, hi] (None = unbounded) with sign(x + dv) == sg ?
+                    cands = []
+                    lo_q = None if lo is None else lo + dv
+                    hi_q = None if hi is None else hi + dv
+                    if sg == 0:
+                        ok = (lo_q is None or lo_q <= 0) and (hi_q is None or hi_q >= 0)
+                    elif sg > 0:
+                        ok = hi_q is None or hi_q >= 1
+                    else:
+                        ok = lo_q is None or lo_q <= -1
+                    if ok:
+                        poss.add(sg)
+                allowed &= poss
+            elif dsign > 0 and sfs <= {0, 1}:
+                allowed &= {1}
+            elif dsign < 0 and sfs <= {-1, 0}:
+                allowed &= {-1}
+    return allowed
+
+
 def known_truth(st: State, v):
     """Truth value of a (possibly symbolic) condition under the comparison facts of the path, or None."""
     if isinstance(v, BoolV):
@@ -521,6 +594,8 @@ def known_truth(st: State, v):
             k, o_ = k1, flip[o_]
         if k == k1:
             allowed = {s_ for s_ in allowed if holds(o_, s_) == r_}
+    if len({holds(v.op, s_) for s_ in allowed}) != 1:
+        allowed &= offset_signs(st, diff)
     vals = {holds(v.op, s_) for s_ in allowed}
     if len(vals) != 1:
         return None
